@@ -16,6 +16,9 @@ CHECKS = {
  "C01": ("exploration", "seeded search over schedules, read/write segmentations, reply orders and unsolicited traffic (family MUX); every value a caller receives is compared with a reference model of the server plan, so a misrouted, reordered, invented or lost response is a violation", "6 C01", "seeded schedule search, reference-model oracle over the recorded history"),
  "C10": ("exploration", "seeded call sequences over next/finish/state on direct, EntriesOnly and search() streams against generated item sequences (family STREAM); every returned value and state is compared call by call with an executable model of the documented stream state machine; a panic in a stream call is a violation", "6 C10", "seeded history search against an executable reference model of the stream state machine"),
  "C13": ("exploration", "seeded histories of every operation lifecycle with barriers (family LEAK); at each quiescent checkpoint the simulator snapshots the message-ID table and both routing maps (hooks H2/H4) and requires them empty; abandon clauses checked on the wire and on the abandoned caller", "6 C13", "seeded history search with invariants at simulator-detected quiescent points"),
+ "C02": ("exploration", "seeded SEQ scenarios put every operation kind with generated arguments and every combination of one-shot modifiers on one handle (plus MUX scenarios for concurrent handles); the scripted server decodes each request with the harness's own strict RFC 4511 decoder and the result is compared with a request model built from the call arguments and a reference model of the handle's modifier state", "6 C02", "seeded history search; independent strict decoder at the simulated peer plus modifier-state reference model"),
+ "C03": ("exploration", "seeded SEQ scenarios answer every operation with generated results (all codes, UTF-8 strings, referrals, controls in every presence combination, extended name/value, random legal length forms on every TLV); the value the caller receives is compared field by field with the response model; success()/non_error()/equal() are evaluated on the returned value against the documented table; MUX scenarios repeat the comparison under concurrency", "6 C03", "seeded history search; response reference model at the simulated peer"),
+ "C06": ("exploration", "per seeded response burst every two-chunk split point, one-byte delivery, frame-aligned +-1, random chunking and read caps; later chunks arrive one simulated millisecond later, so a message surfaced before its last byte or bytes eaten from the next message show up as an early return, a wrong value or a hang", "6 C06", "seeded partition sweep of the response byte stream on the simulated network"),
  "C04": ("fault_enumeration", "per seeded exchange a fault-free reference run fixes the byte lengths and the decision trace; then EOF / reset at every response byte boundary, write error / server close at every request byte boundary, every flush, an undecodable frame before every response frame, unbind and handle drop at every step; each run is checked for termination of every call and of drive(), no invented values, survival of fully delivered replies (exactly, for read-side faults), immediate failure of later operations, and transport close on unbind / last drop; worker processes are supervised so that an in-poll spin or crash is caught", "6 C04", "fault enumeration over every byte boundary of seeded exchanges, replaying the reference schedule up to the fault"),
  "C12": ("exploration", "seeded TIME scenarios with replies and search items before / at / after deadlines on a simulated clock; every call's value and virtual completion time is compared with a timing model computed from the recorded delivery times (ties are either-outcome); late replies must reach nobody; tables must be clean at quiescent checkpoints", "6 C12", "seeded schedule and timing search on a simulated clock with a timing reference model"),
  "C05": ("exploration", "seeded IDS scenarios position the ID counter at the upper end with arbitrary IDs in use and move it to just below IDs of searches that are still outstanding; server-side check of range / pre-seeded / still-outstanding IDs on every request, table snapshots (hook H4) around every allocation for the wrap-around rule; H3 yield makes wire order differ from allocation order; MUX runs are checked server-side as a by-product", "6 C05", "seeded schedule and history search with inline invariants at the scripted server and at allocation snapshots"),
